@@ -123,6 +123,11 @@ def render_graph(g, kinds, pars=None, pkgs=None, args=None, options=None):
     for i in range(n):
         deps = []
         for j in g[i]:
+            if isinstance(j, tuple) and j[0] == "dup":
+                j = j[1]
+                # the other spelling of a dependency that is already listed
+                deps.append(ids[j] if pkgs[j] == pkgs[i] else ids[j].replace(":", "/:"))
+                continue
             deps.append(":" + node_name(j) if pkgs[j] == pkgs[i] else ids[j])
         text = render_task(node_name(i), kinds[i], deps, par=pars[i],
                            args=(args or {}).get(i), options=(options or {}).get(i))
